@@ -92,6 +92,12 @@ def stream_world(eng, st):
             last = saves[-1]
             whole = a[0].f.get("lo") is None or Eq(a[0].f.get("lo"), 0)
             e.oblige("C03:payload-is-exactly-the-image-just-encoded", s, And(whole, last["start"] == 0, n == last["n"]), prop="C03", kind="pre")
+        else:
+            # nothing was encoded into that stream: only the source FILE itself may be sent as it is (the read-from-file gate); an
+            # in-memory buffer that no image was saved into is not an image
+            src = [r for r in s.ghost.get("opened", []) if r.id == of]
+            if src and s.H(src[0]).get("kind") != "file":
+                e.oblige("C03:payload-is-an-image-that-was-encoded(or-the-source-file-itself)", s, False, prop="C03", kind="pre")
         return [(Rec("b64", {"decoded_len": n, "len": 4 * ((n + 2) / 3)}), s)]
     eng.genv["standard_b64encode"] = Fn(b64)
     eng.attrs[("b64", "decode")] = lambda e, s, v: [(Fn(lambda e2, s2, a, k: [(TS([Payload("b64", z3.IntVal(0), v.f["len"], decoded_len=v.f["decoded_len"])]), s2)]), s)]
